@@ -101,7 +101,10 @@ func RunC18(k *fw.Case) {
 					m.Target = fmt.Sprintf("px%d", j)
 					preExisting = append(preExisting, m.Target)
 				}
-				if m.Fail {
+				if m.Fail && r.Intn(3) == 0 {
+					// a failing assignment of another kind: the target is a field of a name that does not exist
+					m.Text = fmt.Sprintf("ghost%d.F = fl(%d)", j, m.ID)
+				} else if m.Fail {
 					m.Text = fmt.Sprintf("%s = 1 / fl(%d)", m.Target, m.ID)
 				} else {
 					m.Text = fmt.Sprintf("%s = ev(%d, %d)", m.Target, m.ID, m.Val)
